@@ -23,6 +23,7 @@ func checkC13(c *Ctx) {
 	c.Rule("C13.R1", "no stutter path in the curve simplifier: no header-to-header path of an outer loop that leaves every variable its conditions read unchanged and is feasible on the first iteration (definite non-termination)")
 	c.Rule("C13.R2", "the output is a fresh slice; every vertex appended to it is an element of the input curve, which is never written; the first append is the curve's first vertex; the exit flag is only raised right after appending the curve's last vertex and is the only way out of the scan")
 	c.Rule("C13.R3", "every vertex appended after skipping input vertices is dominated by the simplicity test of the replacing segment against kept output, remaining input and the other curves, or by adjacency to the previous kept vertex")
+	c.Rule("C13.R5", "the deviation of a skipped vertex is its distance to the replacing *segment*: the point-to-segment distance clamps the projection parameter to [0,1] and never divides 0 by 0")
 	c.Rule("C13.R4", "Multi* Simplify methods simplify member i into index i of a fresh result over the full range; Polygon.Simplify passes the whole polygon as the other curves")
 	a := &c13{c: c, info: c.P.Pkg("geom").TypesInfo}
 	a.members()
@@ -33,6 +34,8 @@ func checkC13(c *Ctx) {
 	a.termination()
 	a.subsequence()
 	a.vetting()
+	checkSegmentDistance(c, "C13.R5")
+	c.Floor("C13.R5", 1)
 	c.Floor("C13.R1", 1)
 	c.Floor("C13.R2", 1)
 	c.Floor("C13.R3", 1)
